@@ -296,6 +296,29 @@ def install():
             return _usqrt(x)
         return o["sqrt"](x, *a, **k)
 
+    o["divide"] = numpy.divide
+
+    def divide(a, b, *args, out=None, where=True, **kw):
+        if has_sym(a, b):
+            aa, bb = np.broadcast_arrays(np.asarray(_arr(a), dtype=object), np.asarray(_arr(b), dtype=object))
+            mask = np.broadcast_to(np.asarray(where, dtype=bool), aa.shape)
+            res = np.empty(aa.shape, dtype=object)
+            if out is not None:
+                res[...] = np.asarray(out, dtype=object)
+            for idx in np.ndindex(*aa.shape):
+                if mask[idx]:
+                    res[idx] = aa[idx] / bb[idx]
+                elif out is None:
+                    res[idx] = 0.0  # numpy leaves such cells uninitialised; the repository always passes out=
+            return res if res.shape else res.item()
+        if out is not None:
+            kw["out"] = out
+        if where is not True:
+            kw["where"] = where
+        return o["divide"](a, b, *args, **kw)
+
+    numpy.divide = UProxy(divide, o["divide"])
+    numpy.true_divide = numpy.divide
     numpy.sqrt = UProxy(sqrt, o["sqrt"])
     numpy.maximum = UProxy(maximum, o["maximum"])
     numpy.minimum = UProxy(minimum, o["minimum"])
@@ -366,6 +389,7 @@ def uninstall():
 
     o = _orig
     numpy.sqrt = o["sqrt"]
+    numpy.divide = numpy.true_divide = o["divide"]
     numpy.maximum = um.maximum = o["maximum"]
     numpy.minimum = um.minimum = o["minimum"]
     um.clip = o["clip_um"]
